@@ -304,3 +304,23 @@ Theorem C05_datetime_from_source :
   (run_rule orc U FE ST fn_Datetime vn obj field v = Some [] <-> rDatetime orc vn obj field v = []).
 Proof. exact datetime_rule_from_source. Qed.
 Print Assumptions C05_datetime_from_source.
+
+(* Re (valid/validfn.go), the last of the rule functions: the pattern is what follows the first quote of the WHOLE rule
+   text up to the first quote not preceded by a backslash — the byte loop `for ; i < l; i++` with its append, its
+   return and its break is, by induction, the model's re_scan —; the message is parsed from the rule text with the
+   pattern cut out (two slices, in range); regexp.MatchString decides (oracle).  From its syntax tree regenerated on
+   every run, for every rule text of bytes, names and value; it writes nothing exactly when the model's rRe (the
+   function C05_re_pattern judges) reports no clause. *)
+From PGV Require Import Proofs.GoReProofs.
+Theorem C05_re_from_source :
+  forall (orc : oracles) (U : val -> str) (FE : str -> str -> ftext -> str) (ST : str -> str) vn obj field v,
+  forallb (fun c => N.ltb c 256) vn = true ->
+  run_rule orc U FE ST fn_Re vn obj field v = Some (re_text orc FE vn obj field v).
+Proof. exact re_rule_from_source. Qed.
+Print Assumptions C05_re_from_source.
+Theorem C05_re_verdict_from_source :
+  forall (orc : oracles) (U : val -> str) (FE : str -> str -> ftext -> str) (ST : str -> str),
+  (forall o f t, FE o f t <> []) -> forall vn obj field v, forallb (fun c => N.ltb c 256) vn = true ->
+  (run_rule orc U FE ST fn_Re vn obj field v = Some [] <-> rRe orc vn obj field v = []).
+Proof. exact re_rule_writes_iff_clause. Qed.
+Print Assumptions C05_re_verdict_from_source.
